@@ -24,7 +24,7 @@ INFO = dict(
   stubs=['LOW_RESOLUTION_TIME_SOURCE: the module-level object as imported (constant clock)', 'random.random in scales.varz -> symbolic [0,1) (unused below the reservoir size)'],
   assumptions=['A2 exact reals for sample arithmetic'],
 )
-EXPECT_COVERS = ['equal-sources-merge', 'distinct-sources-split', 'gauge-overwrite', 'percentile-interpolated']
+EXPECT_COVERS = ['samples-spread-over-minutes', 'equal-sources-merge', 'distinct-sources-split', 'gauge-overwrite', 'percentile-interpolated']
 
 M_COUNTER = 'verif.counter'; M_GAUGE = 'verif.gauge'; M_RATE = 'verif.rate'; M_PCT = 'verif.latency'
 
@@ -39,6 +39,8 @@ def jobs(tier):
   for k in range(1, ks + 1):
     js.append(dict(name='percentile-s%d' % k, op='pct', k=k, cost=3 ** k))
   js.append(dict(name='source-eq-hash', op='eqhash', pool=pool, cost=1))
+  for k in (2, 3):
+    js.append(dict(name='percentile-over-time-s%d' % k, op='pcttime', k=k, cost=3 ** k))
   return js
 
 
@@ -121,6 +123,37 @@ def make_body(job):
           if op == 'gauge': want = sum(amts[-1] for f, amts in members)
           else: want = sum(sum(amts) for f, amts in members)
           check('aggregate-total', got[0].total == want)
+    elif op == 'pcttime':
+      # samples arrive slowly (symbolic gaps of up to 10 minutes on the low-resolution clock); a source that recorded a
+      # sample recently must still be reported from its retained samples
+      k = job['k']
+      class Clock(object): pass
+      clk = Clock(); clk.now = 1000.0
+      saved = varz_mod.LOW_RESOLUTION_TIME_SOURCE
+      varz_mod.LOW_RESOLUTION_TIME_SOURCE = clk
+      try:
+        samples = []
+        for i in range(k):
+          gap = fresh_real('gap%d' % i, 0, 600)
+          clk.now = clk.now + gap
+          sv = fresh_real('sample%d' % i, 1, 1000)
+          samples.append(sv)
+          VarzReceiver.RecordPercentileSample(Source(1, 1, 1, 1), M_PCT, sv)
+        idle = fresh_real('idle_before_aggregation', 0, 600)
+        clk.now = clk.now + idle
+        if k >= 2: cover('samples-spread-over-minutes')
+        agg = VarzAggregator.Aggregate(VarzReceiver.VARZ_DATA, VarzReceiver.VARZ_METRICS)[M_PCT]
+        tot = list(agg.values())[0].total
+        mn = samples[0]; mx = samples[0]
+        for sv in samples[1:]:
+          mn = sv if bool(sv < mn) else mn
+          mx = sv if bool(sv > mx) else mx
+        if bool(idle < VarzAggregator.MAX_AGG_AGE):
+          for p, pct in zip(tot[1:], VarzReceiver.VARZ_PERCENTILES):
+            check('recent-source-percentile-in-band@%s' % pct, sand(p >= mn, p <= mx))
+          check('recent-source-mean-in-band', sand(tot[0] >= mn, tot[0] <= mx))
+      finally:
+        varz_mod.LOW_RESOLUTION_TIME_SOURCE = saved
     elif op == 'pct':
       k = job['k']
       src = (1, 1, 1, 1)
